@@ -156,13 +156,20 @@ type txgen struct {
 
 func (g *txgen) addrOf(i int) staking.Address { return staking.NewAddress(g.w.accts[i].Public()) }
 
-func (g *txgen) entityAddr(i int) staking.Address { return staking.NewAddress(g.w.vals[i].ent.ID) }
+func (g *txgen) entityAddrRaw(i int) staking.Address { return staking.NewAddress(g.w.vals[i].ent.ID) }
+
+func (g *txgen) entityAddr(i int) staking.Address {
+	if g.w.tie && i < 2 {
+		i += 2 // keep the escrow of the tied entities 1 and 2 untouched
+	}
+	return staking.NewAddress(g.w.vals[i].ent.ID)
+}
 
 // gen produces a signed staking transaction from account `from` with the given nonce.
 func (g *txgen) gen(from int, nonce uint64, res *hlib.Result) []byte {
 	r := g.r
 	var fee *transaction.Fee
-	if r.Chance(2, 3) {
+	if r.Chance(2, 3) && !g.w.tie { // fees are partly credited to escrow and would break the engineered tie
 		fee = &transaction.Fee{Amount: q(uint64(r.Intn(50))), Gas: transaction.Gas(2000 + r.Intn(3000))}
 	}
 	amt := func() quantity.Quantity {
@@ -286,14 +293,15 @@ type op struct {
 }
 
 type session struct {
-	r       *replica
-	lines   []string
-	appHash map[int64]string
-	results map[int64][]string // per height: responses to begin/deliver*/end of the decided block
-	ordered map[int64][]string // the same with events and validator updates in emission order
-	dead    bool               // crashed during final delivery (stays down)
-	failMsg []string
-	panics  []string
+	r            *replica
+	lines        []string
+	appHash      map[int64]string
+	results      map[int64][]string // per height: responses to begin/deliver*/end of the decided block
+	ordered      map[int64][]string // the same with events and validator updates in emission order
+	dead         bool               // crashed during final delivery (stays down)
+	failMsg      []string
+	panics       []string
+	lastPrepared *block // input of the PrepareProposal that was the previous cache-changing call
 }
 
 type driver struct {
@@ -357,6 +365,11 @@ func (s *session) exec(d *driver, o op, height int64) {
 		}
 		s.lines = append(s.lines, fmt.Sprintf("prepare %d %s", b.id, ans))
 		o.blk.prepared = resp.Txs
+		s.probe(d)
+		s.lastPrepared = nil
+		if len(resp.Txs) > 0 {
+			s.lastPrepared = o.blk
+		}
 	case "process":
 		b := o.blk
 		var resp types.ResponseProcessProposal
@@ -377,7 +390,32 @@ func (s *session) exec(d *driver, o op, height int64) {
 			b.verdicts = map[string]string{}
 		}
 		b.verdicts[r.name] = ans
+		_, _, recorded := s.probe(d)
+		if lp := s.lastPrepared; lp != nil && lp.propIdx == b.propIdx && lp.lcToken() == b.lcToken() && lp.evToken() == b.evToken() &&
+			lp.hdrToken() == b.hdrToken() && equalTxs(lp.prepared, b.txs) {
+			// the proposer's own block coming straight back with the same commit info
+			k := "honest-path:own-block-back:cache-hit"
+			if !recorded {
+				k = "honest-path:own-block-back:CACHE-MISS"
+			}
+			d.res.Count(k)
+			if b.height == 1 {
+				d.res.Count(k + ":height-1-empty-commit")
+			}
+		}
+		s.lastPrepared = nil
+		switch {
+		case recorded && b.propIdx == r.self:
+			d.res.Count("process:own-block-served-from-cache")
+		case recorded:
+			d.res.Count("process:foreign-block-served-from-cache")
+		case b.propIdx == r.self:
+			d.res.Count("process:own-block-executed")
+		default:
+			d.res.Count("process:foreign-block-executed")
+		}
 	case "begin":
+		s.lastPrepared = nil
 		b := o.blk
 		var resp types.ResponseBeginBlock
 		p := guard(func() {
@@ -428,6 +466,7 @@ func (s *session) exec(d *driver, o op, height int64) {
 		s.lines = append(s.lines, "commit "+ans)
 		s.appHash[height] = ans
 	case "restart":
+		s.lastPrepared = nil
 		if err := r.restart(); err != nil {
 			s.failMsg = append(s.failMsg, "restart failed: "+err.Error())
 			s.dead = true
@@ -463,6 +502,20 @@ func (s *session) exec(d *driver, o op, height int64) {
 		})
 		s.lines = append(s.lines, "query")
 	}
+}
+
+// probe reads the real proposal cache through the verif hook and adds a line for the model.
+func (s *session) probe(d *driver) (exists, executed, recorded bool) {
+	var h []byte
+	exists, executed, recorded, h = s.r.srv.VerifProposalState()
+	b := func(x bool) int {
+		if x {
+			return 1
+		}
+		return 0
+	}
+	s.lines = append(s.lines, fmt.Sprintf("probe %d %d %d %d", b(exists), b(executed), b(recorded), d.hashNo(h)))
+	return
 }
 
 // ---- one history -----------------------------------------------------------------------------
@@ -579,7 +632,7 @@ func (d *driver) runHistory(seed uint64, heights int, rep int) *histOut {
 		blockTime = blockTime.Add(time.Duration(1+rng.Intn(5)) * time.Second)
 		var lcBase types.CommitInfo
 		if h > 1 {
-			lcBase = d.commitInfo(rng, vs, rng.Chance(1, 3))
+			lcBase = d.commitInfo(rng, vs, rng.Chance(1, 3) || w.tie)
 		}
 		ncand := 1 + rng.Intn(3)
 		type cand struct {
@@ -603,10 +656,11 @@ func (d *driver) runHistory(seed uint64, heights int, rep int) *histOut {
 			}
 			lc := lcBase
 			if h > 1 && rng.Chance(1, 3) {
-				lc = d.commitInfo(rng, vs, false)
+				lc = d.commitInfo(rng, vs, w.tie)
+				lc.Round += 7 // differs from lcBase at least in the round
 			}
 			var ev []types.Misbehavior
-			if h > 2 && !evidenceUsed && rng.Chance(1, 12) {
+			if h > 2 && !evidenceUsed && !w.tie && rng.Chance(1, 12) {
 				ks := vs.sortedKeys()
 				u := vs[ks[len(ks)-1]]
 				pk := ed25519.PubKey(u.PubKey.GetEd25519())
@@ -676,7 +730,8 @@ func (d *driver) runHistory(seed uint64, heights int, rep int) *histOut {
 		if d.gapMode && h > 1 {
 			for _, c := range cands {
 				if c.valid && rng.Chance(1, 2) {
-					lc2 := d.commitInfo(rng, vs, false)
+					lc2 := d.commitInfo(rng, vs, w.tie)
+					lc2.Round += 11
 					gb := d.newBlock(h, blockTime, c.full.propIdx, lc2, c.full.ev, c.full.txs)
 					if gb.lcToken() == c.full.lcToken() {
 						break
@@ -859,11 +914,11 @@ func (d *driver) runHistory(seed uint64, heights int, rep int) *histOut {
 					want = "ACCEPT"
 				}
 				if v != want {
-					if c.mutation == "commit-info-gap" {
+					if c.mutation == "commit-info-gap" && v == "ACCEPT" {
 						res.Count("finding:commit-info-gap-accepted-stale")
 						if len(res.Samples) < 3 {
 							res.AddSample(map[string]any{"finding": "isEqual ignores last-commit info", "height": h, "replica": name,
-								"detail": "PrepareProposal(b) then ProcessProposal(b') with b' equal to the prepared block in header, txs, evidence but different commit info: ACCEPT from the cache, while executing b' fails metadata validation"})
+								"detail": "PrepareProposal(b) then ProcessProposal(b') with b' equal to the prepared block in header, txs, evidence but different commit info: ACCEPT from the cache, while executing b' fails metadata validation (the gap repaired by /repo 47a524f is back)"})
 						}
 						if d.gapAsFailure {
 							d.fail(out, "spec", "process-accepts-stale-commit-info", fmt.Sprintf("height %d replica %s: ProcessProposal answered %s for a block the executor rejects (%s)", h, name, v, c.mutation), hcase())
@@ -877,57 +932,57 @@ func (d *driver) runHistory(seed uint64, heights int, rep int) *histOut {
 		}
 
 		// oracle: plain replay of the decided block
-		os := &session{r: oracle, appHash: map[int64]string{}, results: map[int64][]string{}, ordered: map[int64][]string{}}
-		os.exec(d, op{kind: "begin", blk: decided.full}, h)
+		orc := &session{r: oracle, appHash: map[int64]string{}, results: map[int64][]string{}, ordered: map[int64][]string{}}
+		orc.exec(d, op{kind: "begin", blk: decided.full}, h)
 		for _, t := range decided.full.txs {
-			if os.dead {
+			if orc.dead {
 				break
 			}
-			os.exec(d, op{kind: "deliver", tx: t}, h)
+			orc.exec(d, op{kind: "deliver", tx: t}, h)
 		}
 		var endResp types.ResponseEndBlock
-		if !os.dead {
+		if !orc.dead {
 			if p := guard(func() { endResp = oracle.mux.EndBlock(types.RequestEndBlock{Height: h}) }); p != "" {
-				os.dead = true
-				os.results[h] = append(os.results[h], "PANIC")
+				orc.dead = true
+				orc.results[h] = append(orc.results[h], "PANIC")
 			} else {
 				e, od := digEnd(endResp)
-				os.ordered[h] = append(os.ordered[h], od)
-				os.results[h] = append(os.results[h], e)
+				orc.ordered[h] = append(orc.ordered[h], od)
+				orc.results[h] = append(orc.results[h], e)
 			}
 		}
-		if !os.dead {
-			os.exec(d, op{kind: "commit"}, h)
+		if !orc.dead {
+			orc.exec(d, op{kind: "commit"}, h)
 		}
-		if os.dead != crashHeight {
-			d.fail(out, "spec", "oracle-validity", fmt.Sprintf("height %d: plain replay of the decided block crashed=%v, expected %v (%s)", h, os.dead, crashHeight, decided.mutation), hcase())
+		if orc.dead != crashHeight {
+			d.fail(out, "spec", "oracle-validity", fmt.Sprintf("height %d: plain replay of the decided block crashed=%v, expected %v (%s)", h, orc.dead, crashHeight, decided.mutation), hcase())
 		}
 		for _, s := range sess {
 			if len(s.failMsg) > 0 {
 				d.fail(out, "harness", "harness-restart", strings.Join(s.failMsg, "; "), hcase())
 				s.failMsg = nil
 			}
-			if s.dead != os.dead {
-				d.fail(out, "spec", "crash-differs", fmt.Sprintf("height %d: replica %s crashed=%v, plain replay crashed=%v; panics: %v", h, s.r.name, s.dead, os.dead, s.panics), hcase())
+			if s.dead != orc.dead {
+				d.fail(out, "spec", "crash-differs", fmt.Sprintf("height %d: replica %s crashed=%v, plain replay crashed=%v; panics: %v", h, s.r.name, s.dead, orc.dead, s.panics), hcase())
 				continue
 			}
-			if !equalStrs(s.results[h], os.results[h]) {
-				d.fail(out, "spec", "results-differ", fmt.Sprintf("height %d: replica %s returned %v for the decided block, plain replay %v", h, s.r.name, s.results[h], os.results[h]), hcase())
+			if !equalStrs(s.results[h], orc.results[h]) {
+				d.fail(out, "spec", "results-differ", fmt.Sprintf("height %d: replica %s returned %v for the decided block, plain replay %v", h, s.r.name, s.results[h], orc.results[h]), hcase())
 			}
-			if s.appHash[h] != os.appHash[h] {
-				d.fail(out, "spec", "apphash-differs", fmt.Sprintf("height %d: replica %s AppHash %s, plain replay %s", h, s.r.name, s.appHash[h], os.appHash[h]), hcase())
+			if s.appHash[h] != orc.appHash[h] {
+				d.fail(out, "spec", "apphash-differs", fmt.Sprintf("height %d: replica %s AppHash %s, plain replay %s", h, s.r.name, s.appHash[h], orc.appHash[h]), hcase())
 			}
-			if equalStrs(s.ordered[h], os.ordered[h]) {
+			if equalStrs(s.ordered[h], orc.ordered[h]) {
 				res.Count("info:emission-order-same")
 			} else {
 				res.Count("info:emission-order-differs")
 				for i := range s.ordered[h] {
-					if i < len(os.ordered[h]) && s.ordered[h][i] != os.ordered[h][i] {
+					if i < len(orc.ordered[h]) && s.ordered[h][i] != orc.ordered[h][i] {
 						switch {
 						case i == 0:
 							res.Count("info:emission-order-differs:begin-block-events")
 						case i == len(s.ordered[h])-1 && strings.Contains(s.ordered[h][i], "|"):
-							a, b := strings.SplitN(s.ordered[h][i], "|", 2), strings.SplitN(os.ordered[h][i], "|", 2)
+							a, b := strings.SplitN(s.ordered[h][i], "|", 2), strings.SplitN(orc.ordered[h][i], "|", 2)
 							if a[0] != b[0] {
 								res.Count("info:emission-order-differs:end-block-events")
 							}
@@ -942,18 +997,30 @@ func (d *driver) runHistory(seed uint64, heights int, rep int) *histOut {
 			}
 			res.Count("spec:height-compared")
 		}
-		if os.dead {
+		if orc.dead {
 			out.appHashes = append(out.appHashes, "CRASH")
 			break
 		}
-		out.appHashes = append(out.appHashes, os.appHash[h])
-		sroot = os.appHash[h]
+		out.appHashes = append(out.appHashes, orc.appHash[h])
+		sroot = orc.appHash[h]
 		res.Count("heights-completed")
 		// validator set changes take effect with one block delay
 		vs = pendingVs.clone()
 		pendingVs.apply(endResp.ValidatorUpdates)
 		if len(endResp.ValidatorUpdates) > 0 {
 			res.Count("height:validator-updates")
+		}
+		if os.Getenv("VERIF_DEBUG") != "" {
+			if tree := openTree(oracle); tree != nil {
+				ss := stakingState.NewImmutableState(tree)
+				var bal []string
+				for i := range w.vals {
+					a, _ := ss.Account(context.Background(), g.entityAddrRaw(i))
+					bal = append(bal, a.Escrow.Active.Balance.String())
+				}
+				tree.Close()
+				fmt.Fprintf(os.Stderr, "DEBUG h=%d escrow=%v valupdates=%v\n", h, bal, valUpdatesSet(endResp.ValidatorUpdates))
+			}
 		}
 		for _, ev := range decided.full.ev {
 			_ = ev
@@ -1020,14 +1087,15 @@ func main() {
 	replaySeed := flag.Uint64("replay-seed", 0, "re-run the history with this case seed")
 	corpus := flag.String("corpus", "", "corpus dir (model sessions), run first")
 	gap := flag.Bool("gap", true, "also generate the commit-info gap scenario (reported as a finding counter)")
-	gapFail := flag.Bool("gap-as-failure", false, "report the commit-info gap as a failure")
+	gapFail := flag.Bool("gap-as-failure", true, "a ProcessProposal that accepts a block differing from the cached one only in commit info although the executor rejects it is a failure (signature process-accepts-stale-commit-info)")
+	tie := flag.Bool("tie", false, "genesis variant with a durable stake tie at the validator election cut-off")
 	conc := flag.Bool("concurrent", true, "CheckTx from a concurrent goroutine during block processing")
 	backends := flag.String("backends", "badger,pathbadger", "node database backends to alternate")
 	dump := flag.String("dump", "", "directory to write the model sessions of the first history to")
 	flag.Parse()
 
 	res := hlib.NewResult("muxdrv", *seed)
-	res.Rule = "histories of consecutive heights on a real multiplexer with 8 real applications and 4 validators: per height 1-3 candidate blocks (random proposer, sub-sequence of a mempool of valid/stale/future-nonce/garbage staking transactions, varying last-commit votes, rare evidence, 1/6 with a mutated or missing metadata transaction), 2-4 replicas each with a random mixture of prepare/process/restart/aborted delivery/CheckTx/EstimateGas/query, epoch transition every 5 blocks; a history is non-trivial when at least one replica served the decided block from its cache and one executed it; distinct by case seed"
+	res.Rule = "histories of consecutive heights on a real multiplexer with 8 real applications and 4 validators: per height 1-3 candidate blocks (random proposer, sub-sequence of a mempool of valid/stale/future-nonce/garbage staking transactions, varying last-commit votes, rare evidence; every candidate after the first is given a wrong/missing/duplicate/foreign-signed/non-zero-nonce metadata transaction with probability 1/4; with -gap a twin of a valid candidate that differs only in last-commit info), 2-4 replicas each with a random mixture of prepare/process/restart/aborted delivery/CheckTx/EstimateGas/query, epoch transition every 5 blocks; a history is non-trivial when at least one replica served the decided block from its cache and one executed it; distinct by case seed"
 	modelOnly := func(lines []string) {
 		ans, err := hlib.RunModel("mux", lines)
 		res.Cases++
@@ -1077,7 +1145,7 @@ func main() {
 	defer os.RemoveAll(base)
 	worlds := map[string]*world{}
 	for _, b := range bk {
-		w, err := newWorld(b, epochInterval)
+		w, err := newWorld(b, epochInterval, *tie)
 		if err != nil {
 			fmt.Fprintln(os.Stderr, "world:", err)
 			os.Exit(2)
@@ -1141,6 +1209,6 @@ func main() {
 			break
 		}
 	}
-	res.Explanation = "finding:* counters report the reproduced commit-info gap of isEqual (not counted as a failure unless -gap-as-failure)"
+	res.Explanation = "process:* counters: how often ProcessProposal was answered from the proposer's cache (own block, same commit info) or by execution; cand:commit-info-gap twins must be executed (a cached ACCEPT the executor contradicts is the failure process-accepts-stale-commit-info)"
 	res.Write(*out)
 }
